@@ -188,7 +188,7 @@ func createQueueFromBytes(data []byte, cap uint32) *queue {
 func mappingQueueFromBytes(data []byte) *queue {
 	cap := *(*uint32)(unsafe.Pointer(&data[0]))
 	queueStartOffset := queueHeaderLength
-	queueEndOffset := queueHeaderLength + cap*queueElementLen
+	queueEndOffset := queueHeaderLength + int(cap)*queueElementLen
 	if isArmArch() {
 		// align 8 byte boundary for head and tail
 		return &queue{
@@ -210,7 +210,7 @@ func mappingQueueFromBytes(data []byte) *queue {
 
 // cap prefer equals 2^n
 func createQueue(cap uint32) *queue {
-	return createQueueFromBytes(make([]byte, queueHeaderLength+int(cap*queueElementLen)), cap)
+	return createQueueFromBytes(make([]byte, queueHeaderLength+int(cap)*queueElementLen), cap)
 }
 
 func (q *queueManager) unmap() {
